@@ -263,7 +263,8 @@ def main():
             ev["coverage"].update(mod.extra_evidence(tier))
         except Exception:
             pass
-    C.write_json(os.path.join(C.OUT, "evidence", pid + ".json"), ev)
+    # a replay of a single case is not a coverage run: its record goes next to the build output
+    C.write_json(os.path.join(C.BUILD, "replay_evidence", pid + ".json") if args.replay else os.path.join(C.OUT, "evidence", pid + ".json"), ev)
     print("%s tier=%s seed=%d cases=%d corr_bad=%d maxdev=%.3g oracle_fail=%d theorems=%d/%d wall=%.1fs exit=%d" % (
         pid, tier, seed, len(cases), len(bad), maxdev, len(oracle_fail), discharged, obligations, time.time() - t0, exit_code))
     sys.exit(exit_code)
